@@ -5,6 +5,7 @@ symbolic inputs; LAPACK calls, exp, sqrt and the Green-function calculator are m
 uninterpreted functions (same argument terms => same result terms).  Two executions agree iff
 the data reaching those functions and the arithmetic around them agree, so any hidden state,
 aliasing with arrays handed to the caller, or stale cache shows up as a satisfiable difference."""
+import os
 import sys
 
 import numpy as np
@@ -33,6 +34,8 @@ def configs():
         'sc-1': (lambda: crystal.Crystal(np.eye(3), [a([0., 0., 0.])]), 0, 1.01, 1),
         'rect2-1': (lambda: crystal.Crystal(a([[1., 0.], [0., 1.25]]), [[a([0., 0.]), a([0.5, 0.5])]], noreduce=True), 0, 0.9, 1),
         'square-2': (lambda: crystal.Crystal(np.eye(2), [a([0., 0.])]), 0, 1.01, 2),
+        'rect2-2': (lambda: crystal.Crystal(a([[1., 0.], [0., 1.25]]), [[a([0., 0.]), a([0.5, 0.5])]], noreduce=True), 0, 0.9, 2),
+        'sc-2': (lambda: crystal.Crystal(np.eye(3), [a([0., 0., 0.])]), 0, 1.01, 2),
         # two sites related by inversion, each with only a mirror: non-empty site vector basis (origin-state corrections active)
         'rumple2d-1': (lambda: crystal.Crystal(a([[1., 0.], [0., 1.25]]), [[a([0., 0.1]), a([0., 0.9])]], noreduce=True), 0, 1.05, 1),
         'rumple2d-s': (lambda: crystal.Crystal(a([[1., 0.], [0., 2.]]), [[a([0., 0.1]), a([0., 0.9])]], noreduce=True), 0, 1.05, 1),
@@ -234,6 +237,82 @@ def scenario(cfg, kind, large):
     return fn
 
 
+def regen(cfg_from, cfg_to):
+    """range regeneration: a calculator built with one thermodynamic range answers a query, is regenerated IN PLACE with another
+    range (generate + generatematrices, as the constructor does) and must then answer exactly like a calculator freshly built
+    with that range, for every input"""
+    def fn(src=None):
+        import copy
+        symbolic = src is None
+        name = 'regen:%s->%s' % (cfg_from, cfg_to)
+        calc = copy.deepcopy(get_calc(cfg_from))
+        fresh = copy.deepcopy(get_calc(cfg_to))
+        for c in (calc, fresh):
+            c.GFcalc = getattr(c, 'GFcalc_real', c.GFcalc)
+            c.clearcache()
+        nth = fresh.Nthermo
+        if symbolic:
+            ENG.uf_mode = True
+            ENG.allow_hash = True
+            calc.GFcalc, fresh.GFcalc = GFstub(calc), GFstub(fresh)
+            w = sym_inputs(calc, 'w')
+            x = sym_inputs(fresh, 'x')
+            inputs = input_dict(w, x)
+            ctx = shim.symbolic_mode()
+        else:
+            import contextlib
+            w = conc_inputs(calc, src.vals, 'w')
+            x = conc_inputs(fresh, src.vals, 'x')
+            inputs = {}
+            ctx = contextlib.nullcontext()
+        info = {'inputs': inputs, 'replayer': 'regen', 'extra': {'cfg_from': cfg_from, 'cfg_to': cfg_to}}
+        if symbolic:
+            info['probe'] = probes(inputs)
+            info['probe_first'] = True
+        obs = []
+
+        def mode():
+            return shim.symbolic_mode() if symbolic else ctx
+        with mode():
+            calc.Lij(*w, large_om2=1e8)
+        ok_struct, shapes_ok = True, False
+        try:
+            # regeneration takes no continuous input: plain numpy (as in the constructor)
+            calc.generate(nth)
+            calc.generatematrices()
+            if symbolic:
+                calc.GFcalc = GFstub(calc)
+            # the regenerated object describes the same stars / networks as the fresh one (so that the inputs mean the same)
+            st = lambda c: [(int(p.i), int(p.j), tuple(int(r) for r in p.R)) for p in c.kinetic.states]   # noqa: E731
+            shapes_ok = (st(calc) == st(fresh) and calc.thermo.Nstars == fresh.thermo.Nstars and len(calc.om1_jn) == len(fresh.om1_jn) and
+                         len(calc.om2_jn) == len(fresh.om2_jn))
+            ok_struct = shapes_ok and calc.vkinetic.Nvstars == fresh.vkinetic.Nvstars
+        except Exception:
+            if os.environ.get('VERIF_DEBUG'):
+                import traceback
+                traceback.print_exc()
+            ok_struct = False
+        obs.append(('%s:regenerated-structure-equals-fresh' % name, bool(ok_struct), dict(info, sig='regen:structure', witnessed=True)))
+        got = None
+        if shapes_ok:
+            with mode():
+                try:
+                    got = snapshot(calc.Lij(*x, large_om2=1e8))
+                except Exception as e:
+                    if type(e).__module__.startswith('symx') or not isinstance(e, (IndexError, ValueError, KeyError, TypeError)):
+                        raise
+                    obs.append(('%s:Lij-after-regeneration-runs' % name, False, dict(info, sig='regen:Lij-runs', witnessed=True)))
+        if got is not None:
+            with mode():
+                ref = snapshot(fresh.Lij(*x, large_om2=1e8))
+                for n, tname in enumerate(TENSORS):
+                    obs.append(('%s:%s' % (name, tname), same(got[n], ref[n], symbolic), dict(info, sig='regen:%s' % tname)))
+                if symbolic:
+                    obs.append(('twin:%s:differs-from-v-query' % name, same(ref[1], snapshot(fresh.Lij(*sym_inputs(fresh, 'v'), large_om2=1e8))[1], True)))
+        return obs
+    return fn
+
+
 def gf_inputs(calc, k):
     """concrete vacancy data sets for the validation of the Green-function environment contract; sets 1 and 2 share every
     symmetrised rate (transition state = mean of the end points + constant) but differ in site energies / escape rates"""
@@ -293,6 +372,10 @@ def sections(tier):
                     continue
                 secs.append(S('hist:%s:%s:%s' % (cfg, kind, 'large' if large else 'std'), scenario(cfg, kind, large),
                               budget_s=120 if tier == 'quick' else 1500, timeout_ms=10000 if tier == 'quick' else 20000, replayer='hist', config=cfg, maxpaths=400))
+    for a, b in ([('square-1', 'square-2'), ('square-2', 'square-1')] if tier == 'quick' else
+                 [('square-1', 'square-2'), ('square-2', 'square-1'), ('rect2-1', 'rect2-2'), ('sc-1', 'sc-2')]):
+        secs.append(S('regen:%s->%s' % (a, b), regen(a, b), budget_s=120 if tier == 'quick' else 1500, timeout_ms=10000 if tier == 'quick' else 20000,
+                      replayer='regen', config=a, maxpaths=50))
     for cfg in (['rect2-1', 'square-1'] if tier == 'quick' else ['rect2-1', 'square-1', 'rumple2d-1', 'sc-1']):
         secs.append(S('gf-contract:' + cfg, gf_contract(cfg), budget_s=120, timeout_ms=10000, replayer='gfcontract', config=cfg, maxpaths=2))
     return secs
@@ -302,7 +385,8 @@ def main():
     import warnings
     warnings.simplefilter('ignore')
     if REPLAY:
-        run.replay_main('C14', {'hist': replay, 'gfcontract': lambda rec: harness.run_laws_concrete(lambda src: gf_contract(rec['extra']['cfg'])(src), rec)})
+        run.replay_main('C14', {'hist': replay, 'regen': lambda rec: harness.run_laws_concrete(regen(rec['extra']['cfg_from'], rec['extra']['cfg_to']), rec),
+                                'gfcontract': lambda rec: harness.run_laws_concrete(lambda src: gf_contract(rec['extra']['cfg'])(src), rec)})
     V = OnsagerCalc.VacancyMediated
     chk = run.Check(
         'C14',
